@@ -237,14 +237,34 @@ Section Pick.
 End Pick.
 
 (* ------------------------------------------------------------ conservation *)
+(* keys an event accounts for: delivered, dropped, discarded by the reset, or
+   handed back to the input queue *)
 Definition ev_keys (ev : event) : list Z :=
-  match ev with EInvoke _ ks => ks | EDrop k => [k] | ERaised lb _ => lb end.
+  match ev with
+  | EInvoke _ ks => ks | EDrop k => [k] | ERaised lb _ => lb | EBack ks => ks
+  | EPop _ => [] | EFed _ _ => []
+  end.
 Definition evs_keys (evs : list event) : list Z := flat_map ev_keys evs.
 Definition item_keys (it : item) : list Z := match it with IKey k => [k] | IFlush => [] end.
 Definition items_keys (its : list item) : list Z := flat_map item_keys its.
 
 Lemma evs_keys_app a b : evs_keys (a ++ b) = evs_keys a ++ evs_keys b.
 Proof. unfold evs_keys. apply flat_map_app. Qed.
+
+Lemma items_keys_app a b : items_keys (a ++ b) = items_keys a ++ items_keys b.
+Proof. unfold items_keys. apply flat_map_app. Qed.
+
+Lemma items_keys_map_IKey ks : items_keys (map IKey ks) = ks.
+Proof. unfold items_keys. induction ks as [|k ks IH]; [reflexivity|]. cbn. f_equal. exact IH. Qed.
+
+Definition quiet (evs : list event) : Prop := evs_keys evs = [].
+
+Lemma run_actions_quiet acts : forall e q d, quiet (hevs (run_actions acts e q d)).
+Proof.
+  induction acts as [|a acts IH]; intros e q d; [reflexivity|].
+  destruct a; cbn [run_actions]; try apply IH; try reflexivity.
+  destruct d; [reflexivity|apply IH].
+Qed.
 
 Lemma scan_range bs e b n i m : scan bs e b n = Some (i, m) -> (1 <= i <= n)%nat.
 Proof.
@@ -254,89 +274,237 @@ Qed.
 
 Definition conserved (b : list Z) (r : lres) : Prop :=
   match r with
-  | LDone b' _ _ evs => b = evs_keys evs ++ b'
-  | LRaised _ evs => b = evs_keys evs
+  | LDone b' _ _ _ evs => b = evs_keys evs ++ b'
+  | LRaised _ _ evs => b = evs_keys evs
   | LFuel => True
   end.
 
-Lemma conserved_lcons ev b r : conserved b r -> conserved (ev_keys ev ++ b) (lcons ev r).
+Lemma conserved_lapp pre b r : conserved b r -> conserved (evs_keys pre ++ b) (lapp pre r).
 Proof.
-  destruct r as [b' e q evs|e evs|]; cbn; intros H; try exact I; rewrite H.
+  destruct r as [b' e q d evs|e d evs|]; cbn; intros H; try exact I; rewrite H, evs_keys_app.
   - rewrite app_assoc. reflexivity.
   - reflexivity.
 Qed.
 
-Lemma loop_conserved fuel bs : forall b flush e q, conserved b (loop fuel bs b flush e q).
+Lemma conserved_hand_back rest e q : conserved rest (hand_back rest e q).
+Proof. cbn. rewrite !app_nil_r. reflexivity. Qed.
+
+Lemma invoke_keys i ks evs : quiet evs -> evs_keys (EInvoke i ks :: evs) = ks.
+Proof. intros H. cbn. unfold quiet, evs_keys in H. rewrite H, app_nil_r. reflexivity. Qed.
+
+Lemma loop_conserved fuel bs : forall b flush e q d, conserved b (loop fuel bs b flush e q d).
 Proof.
-  induction fuel as [|fuel IH]; intros b flush e q; cbn [loop]; [exact I|].
+  induction fuel as [|fuel IH]; intros b flush e q d; cbn [loop]; [exact I|].
   destruct b as [|k b0]; [reflexivity|].
   set (b := k :: b0).
   destruct (match filter (eager e) (get_matches bs e b) with [] => _ | _ :: _ => false end); [reflexivity|].
   destruct (last_opt _) as [m|].
-  - destruct (run_actions _ e q) as [[e' q'] r]. destruct r; cbn; rewrite ?app_nil_r; reflexivity.
+  - pose proof (run_actions_quiet (bacts (snd m)) e q d) as Q. destruct (hraised _).
+    + cbn [conserved]. change (EInvoke (fst m) b :: ?x ++ ?y) with ((EInvoke (fst m) b :: x) ++ y).
+      rewrite evs_keys_app, (invoke_keys _ _ _ Q). cbn. rewrite app_nil_r. reflexivity.
+    + cbn [conserved]. rewrite (invoke_keys _ _ _ Q), app_nil_r. reflexivity.
   - destruct (scan bs e b (length b)) as [[i m]|] eqn:ES.
-    + destruct (run_actions _ e q) as [[e' q'] r]. destruct r.
-      * cbn. rewrite app_nil_r. symmetry. apply firstn_skipn.
-      * rewrite <- (firstn_skipn i b) at 1.
-        apply (conserved_lcons (EInvoke (fst m) (firstn i b))). apply IH.
-    + apply (conserved_lcons (EDrop k) b0). apply IH.
+    + pose proof (run_actions_quiet (bacts (snd m)) e q d) as Q. destruct (hraised _).
+      * cbn [conserved]. change (EInvoke (fst m) ?z :: ?x ++ ?y) with ((EInvoke (fst m) z :: x) ++ y).
+        rewrite evs_keys_app, (invoke_keys _ _ _ Q). cbn. rewrite app_nil_r. symmetry. apply firstn_skipn.
+      * pose proof (conserved_lapp (EInvoke (fst m) (firstn i b) :: hevs (run_actions (bacts (snd m)) e q d)) (skipn i b)) as X.
+        rewrite (invoke_keys _ _ _ Q), firstn_skipn in X. apply X.
+        destruct (hdone _); [apply conserved_hand_back|apply IH].
+    + change b with (evs_keys [EDrop k] ++ b0). apply conserved_lapp.
+      destruct d; [apply conserved_hand_back|apply IH].
 Qed.
 
-Lemma loop_fuel fuel bs : forall b flush e q, (length b < fuel)%nat -> loop fuel bs b flush e q <> LFuel.
+Lemma loop_fuel fuel bs : forall b flush e q d, (length b < fuel)%nat -> loop fuel bs b flush e q d <> LFuel.
 Proof.
-  induction fuel as [|fuel IH]; intros b flush e q HL; [lia|]. cbn [loop].
+  induction fuel as [|fuel IH]; intros b flush e q d HL; [lia|]. cbn [loop].
   destruct b as [|k b0]; [discriminate|].
   set (b := k :: b0) in *.
   destruct (match filter (eager e) (get_matches bs e b) with [] => _ | _ :: _ => false end); [discriminate|].
   destruct (last_opt _) as [m|].
-  - destruct (run_actions _ e q) as [[e' q'] r]. destruct r; discriminate.
+  - destruct (hraised _); discriminate.
   - destruct (scan bs e b (length b)) as [[i m]|] eqn:ES.
-    + destruct (run_actions _ e q) as [[e' q'] r]. destruct r; [discriminate|].
-      apply scan_range in ES.
+    + destruct (hraised _); [discriminate|]. apply scan_range in ES.
+      destruct (hdone _); [discriminate|].
       assert (HH : (length (skipn i b) < fuel)%nat) by (rewrite skipn_length; lia).
-      specialize (IH (skipn i b) false e' q' HH). destruct (loop fuel bs (skipn i b) false e' q'); cbn; congruence.
-    + assert (HH : (length b0 < fuel)%nat) by (cbn in HL; lia).
-      specialize (IH b0 false e q HH). cbn [tl b]. destruct (loop fuel bs b0 false e q); cbn; congruence.
+      specialize (IH (skipn i b) false (he (run_actions (bacts (snd m)) e q d)) (hq (run_actions (bacts (snd m)) e q d)) false HH).
+      destruct (loop fuel bs (skipn i b) false _ _ false); cbn; congruence.
+    + destruct d; [discriminate|].
+      assert (HH : (length b0 < fuel)%nat) by (cbn in HL; lia).
+      specialize (IH b0 false e q false HH). cbn [tl b]. destruct (loop fuel bs b0 false e q false); cbn; congruence.
 Qed.
 
-Lemma send_fuel bs b e q it : send bs b e q it <> LFuel.
+Lemma send_fuel bs b e q d it : send bs b e q d it <> LFuel.
 Proof. unfold send. apply loop_fuel. lia. Qed.
 
-Lemma send_conserved bs b e q it : conserved (b ++ item_keys it) (send bs b e q it).
+Lemma send_conserved bs b e q d it : conserved (b ++ item_keys it) (send bs b e q d it).
 Proof.
   unfold send. replace (b ++ item_keys it) with (push b it); [apply loop_conserved|].
   destruct it; cbn; [reflexivity|rewrite app_nil_r; reflexivity].
 Qed.
 
 (* every key popped from the queue is in exactly one invocation, dropped,
-   discarded by the reset after an exception, or still in key_buffer - in order *)
+   discarded by the reset after an exception, handed back to the queue, or
+   still in key_buffer - in order *)
 Lemma process_keys_conserved fuel bs : forall s,
   let '(s', evs, pop, stt) := process_keys fuel bs s in
   buf s ++ items_keys pop = evs_keys evs ++ buf s'.
 Proof.
   induction fuel as [|fuel IH]; intros s; cbn [process_keys].
-  - destruct (queue s); cbn; rewrite app_nil_r; reflexivity.
+  - destruct (queue s); [|destruct (sdone s)]; cbn; rewrite app_nil_r; reflexivity.
   - destruct (queue s) as [|it q]; [cbn; rewrite app_nil_r; reflexivity|].
-    pose proof (send_conserved bs (buf s) (cenv s) q it) as HC.
-    destruct (send bs (buf s) (cenv s) q it) as [b e q' evs|e evs|].
-    + specialize (IH (mkst b q' e)). destruct (process_keys fuel bs (mkst b q' e)) as [[[s' evs'] pop] stt].
-      cbn in HC, IH. cbn [items_keys flat_map]. rewrite evs_keys_app, app_assoc, HC, <- !app_assoc.
-      f_equal. exact IH.
+    destruct (sdone s); [cbn; rewrite app_nil_r; reflexivity|].
+    pose proof (send_conserved bs (buf s) (cenv s) q false it) as HC.
+    destruct (send bs (buf s) (cenv s) q false it) as [b e q' d evs|e d evs|].
+    + specialize (IH (mkst b q' e d)). destruct (process_keys fuel bs (mkst b q' e d)) as [[[s' evs'] pop] stt].
+      cbn in HC, IH. cbn [items_keys flat_map]. change (evs_keys (EPop it :: ?x)) with (evs_keys x).
+      rewrite evs_keys_app, app_assoc, HC, <- !app_assoc. f_equal. exact IH.
     + cbn in HC. cbn. rewrite !app_nil_r. exact HC.
     + cbn. rewrite app_nil_r. reflexivity.
 Qed.
 
-(* the queue side, when no handler feeds keys *)
+(* ------------------------------------------------------------ the input queue *)
+(* What may happen to input_queue, replayed over the trace: a pop takes the
+   front item; a handler's feed_multiple puts its items in front or at the
+   back, in order; the is_done hand-back puts the pending keys in front, in
+   order; the reset after an exception empties it. *)
+Inductive replays : list item -> list event -> list item -> Prop :=
+| RP_nil q : replays q [] q
+| RP_pop it q evs q' : replays q evs q' -> replays (it :: q) (EPop it :: evs) q'
+| RP_fed (f : bool) its q evs q' : replays (if f then its ++ q else q ++ its) evs q' -> replays q (EFed f its :: evs) q'
+| RP_back ks q evs q' : replays (map IKey ks ++ q) evs q' -> replays q (EBack ks :: evs) q'
+| RP_raised lb q evs q' : replays [] evs q' -> replays q (ERaised lb q :: evs) q'
+| RP_invoke i ks q evs q' : replays q evs q' -> replays q (EInvoke i ks :: evs) q'
+| RP_drop k q evs q' : replays q evs q' -> replays q (EDrop k :: evs) q'.
+
+Lemma replays_app q1 e1 q2 e2 q3 : replays q1 e1 q2 -> replays q2 e2 q3 -> replays q1 (e1 ++ e2) q3.
+Proof. induction 1; intros H2; cbn; try constructor; auto. Qed.
+
+Lemma run_actions_replays acts : forall e q d,
+  replays q (hevs (run_actions acts e q d)) (hq (run_actions acts e q d)).
+Proof.
+  induction acts as [|a acts IH]; intros e q d; [constructor|].
+  destruct a; cbn [run_actions]; try apply IH; try constructor.
+  - cbn [hevs hq]. apply IH.
+  - destruct d; [constructor|apply IH].
+Qed.
+
+Definition queue_replayed (q : list item) (r : lres) : Prop :=
+  match r with
+  | LDone _ _ q' _ evs => replays q evs q'
+  | LRaised _ _ evs => replays q evs []
+  | LFuel => True
+  end.
+
+Lemma queue_replayed_lapp q pre q1 r : replays q pre q1 -> queue_replayed q1 r -> queue_replayed q (lapp pre r).
+Proof. destruct r; cbn; intros H1 H2; try exact I; eapply replays_app; eauto. Qed.
+
+Lemma loop_replays fuel bs : forall b flush e q d, queue_replayed q (loop fuel bs b flush e q d).
+Proof.
+  induction fuel as [|fuel IH]; intros b flush e q d; cbn [loop]; [exact I|].
+  destruct b as [|k b0]; [constructor|].
+  set (b := k :: b0).
+  destruct (match filter (eager e) (get_matches bs e b) with [] => _ | _ :: _ => false end); [constructor|].
+  destruct (last_opt _) as [m|].
+  - pose proof (run_actions_replays (bacts (snd m)) e q d) as R. destruct (hraised _); cbn [queue_replayed].
+    + constructor. eapply replays_app; [exact R|]. repeat constructor.
+    + constructor. exact R.
+  - destruct (scan bs e b (length b)) as [[i m]|].
+    + pose proof (run_actions_replays (bacts (snd m)) e q d) as R. destruct (hraised _).
+      * cbn [queue_replayed]. constructor. eapply replays_app; [exact R|]. repeat constructor.
+      * eapply queue_replayed_lapp; [constructor; exact R|].
+        destruct (hdone _); [cbn; repeat constructor|apply IH].
+    + eapply (queue_replayed_lapp q [EDrop k] q); [repeat constructor|].
+      destruct d; [cbn; repeat constructor|apply IH].
+Qed.
+
+(* the whole run, handlers that feed (first or last) included *)
+Lemma process_keys_replays fuel bs : forall s,
+  let '(s', evs, pop, stt) := process_keys fuel bs s in replays (queue s) evs (queue s').
+Proof.
+  induction fuel as [|fuel IH]; intros s; cbn [process_keys].
+  - destruct (queue s) eqn:EQ; [|destruct (sdone s)]; cbn; rewrite ?EQ; constructor.
+  - destruct (queue s) as [|it q] eqn:EQ; [rewrite EQ; constructor|].
+    destruct (sdone s); [rewrite EQ; constructor|].
+    pose proof (loop_replays (S (length (push (buf s) it))) bs (push (buf s) it) (is_flush it) (cenv s) q false) as HK.
+    unfold send. destruct (loop _ bs _ _ _ q false) as [b e q' d evs|e d evs|].
+    + specialize (IH (mkst b q' e d)). destruct (process_keys fuel bs (mkst b q' e d)) as [[[s' evs'] pop] stt].
+      cbn in HK, IH. constructor. eapply replays_app; eauto.
+    + cbn in HK. constructor. exact HK.
+    + rewrite EQ. constructor.
+Qed.
+
+Fixpoint pops (evs : list event) : list item :=
+  match evs with [] => [] | EPop it :: r => it :: pops r | _ :: r => pops r end.
+
+Lemma pops_app a b : pops (a ++ b) = pops a ++ pops b.
+Proof. induction a as [|x a IH]; [reflexivity|]. destruct x; cbn; rewrite IH; reflexivity. Qed.
+
+Lemma run_actions_no_pop acts : forall e q d, pops (hevs (run_actions acts e q d)) = [].
+Proof.
+  induction acts as [|a acts IH]; intros e q d; [reflexivity|].
+  destruct a; cbn [run_actions]; try apply IH; try reflexivity.
+  destruct d; [reflexivity|apply IH].
+Qed.
+
+Definition no_pop (r : lres) : Prop :=
+  match r with LDone _ _ _ _ evs | LRaised _ _ evs => pops evs = [] | LFuel => True end.
+
+Lemma no_pop_lapp pre r : pops pre = [] -> no_pop r -> no_pop (lapp pre r).
+Proof. destruct r; cbn; intros H1 H2; try exact I; rewrite pops_app, H1, H2; reflexivity. Qed.
+
+Lemma loop_no_pop fuel bs : forall b flush e q d, no_pop (loop fuel bs b flush e q d).
+Proof.
+  induction fuel as [|fuel IH]; intros b flush e q d; cbn [loop]; [exact I|].
+  destruct b as [|k b0]; [reflexivity|].
+  set (b := k :: b0).
+  destruct (match filter (eager e) (get_matches bs e b) with [] => _ | _ :: _ => false end); [reflexivity|].
+  destruct (last_opt _) as [m|].
+  - pose proof (run_actions_no_pop (bacts (snd m)) e q d) as R. destruct (hraised _); cbn [no_pop pops].
+    + rewrite pops_app, R. reflexivity.
+    + exact R.
+  - destruct (scan bs e b (length b)) as [[i m]|].
+    + pose proof (run_actions_no_pop (bacts (snd m)) e q d) as R. destruct (hraised _).
+      * cbn [no_pop pops]. rewrite pops_app, R. reflexivity.
+      * apply no_pop_lapp; [exact R|]. destruct (hdone _); [reflexivity|apply IH].
+    + apply no_pop_lapp; [reflexivity|]. destruct d; [reflexivity|apply IH].
+Qed.
+
+(* the popped list is the pops of the trace *)
+Lemma process_keys_pops fuel bs : forall s,
+  let '(s', evs, pop, stt) := process_keys fuel bs s in pops evs = pop.
+Proof.
+  induction fuel as [|fuel IH]; intros s; cbn [process_keys].
+  - destruct (queue s); [|destruct (sdone s)]; reflexivity.
+  - destruct (queue s) as [|it q]; [reflexivity|]. destruct (sdone s); [reflexivity|].
+    pose proof (loop_no_pop (S (length (push (buf s) it))) bs (push (buf s) it) (is_flush it) (cenv s) q false) as HK.
+    unfold send. destruct (loop _ bs _ _ _ q false) as [b e q' d evs|e d evs|].
+    + specialize (IH (mkst b q' e d)). destruct (process_keys fuel bs (mkst b q' e d)) as [[[s' evs'] pop] stt].
+      cbn in HK. cbn [pops]. rewrite pops_app, HK, IH. reflexivity.
+    + cbn in HK. cbn [pops]. rewrite HK. reflexivity.
+    + reflexivity.
+Qed.
+
+(* ------------------------------------------------------------ undelivered keys stay in input order *)
+(* keys that reached a handler or were dropped *)
+Definition ev_gone (ev : event) : list Z :=
+  match ev with EInvoke _ ks => ks | EDrop k => [k] | _ => [] end.
+Definition evs_gone (evs : list event) : list Z := flat_map ev_gone evs.
+
+Lemma evs_gone_app a b : evs_gone (a ++ b) = evs_gone a ++ evs_gone b.
+Proof. unfold evs_gone. apply flat_map_app. Qed.
+
 Definition feeds (a : action) : bool := match a with AFeed _ _ => true | _ => false end.
 Definition no_feed (bs : list ib) : Prop :=
   forall m, In m bs -> forallb (fun a => negb (feeds a)) (bacts (snd m)) = true.
 
-Lemma run_actions_no_feed acts e q :
-  forallb (fun a => negb (feeds a)) acts = true -> snd (fst (run_actions acts e q)) = q.
+Lemma run_actions_no_feed acts : forall e q d,
+  forallb (fun a => negb (feeds a)) acts = true ->
+  hq (run_actions acts e q d) = q /\ hevs (run_actions acts e q d) = [].
 Proof.
-  revert e. induction acts as [|a acts IH]; intros e H; [reflexivity|].
+  induction acts as [|a acts IH]; intros e q d H; [split; reflexivity|].
   cbn in H. apply andb_prop in H. destruct H as [H1 H2].
-  destruct a; cbn [run_actions]; [apply IH; exact H2|reflexivity|discriminate].
+  destruct a; cbn [run_actions]; try (apply IH; exact H2); try (split; reflexivity); try discriminate.
+  destruct d; [split; reflexivity|apply IH; exact H2].
 Qed.
 
 Lemma get_matches_in bs e ks m : In m (get_matches bs e ks) -> In m bs.
@@ -353,22 +521,26 @@ Proof.
   intros [= <- <-]. apply last_opt_in in EL. exact (get_matches_in _ _ _ _ EL).
 Qed.
 
-Definition queue_kept (q : list item) (r : lres) : Prop :=
+(* pending keys followed by the queued keys, before = gone ++ the same, after:
+   nothing is reordered, also across the is_done hand-back *)
+Definition in_order (b : list Z) (q : list item) (r : lres) : Prop :=
   match r with
-  | LDone _ _ q' _ => q' = q
-  | LRaised _ evs => exists evs0 lb, evs = evs0 ++ [ERaised lb q]
+  | LDone b' _ q' _ evs => b ++ items_keys q = evs_gone evs ++ b' ++ items_keys q'
+  | LRaised _ _ evs => exists evs0 lb, evs = evs0 ++ [ERaised lb q] /\ b = evs_gone evs0 ++ lb
   | LFuel => True
   end.
 
-Lemma queue_kept_lcons ev q r : queue_kept q r -> queue_kept q (lcons ev r).
+Lemma in_order_lapp pre b q r : in_order b q r -> (forall lb lq, ~ In (ERaised lb lq) pre) ->
+  in_order (evs_gone pre ++ b) q (lapp pre r).
 Proof.
-  destruct r as [b' e q' evs|e evs|]; cbn; try tauto.
-  intros [evs0 [lb ->]]. exists (ev :: evs0), lb. reflexivity.
+  destruct r as [b' e q' d evs|e d evs|]; cbn; intros H NR; try exact I.
+  - rewrite evs_gone_app, <- !app_assoc. f_equal. exact H.
+  - destruct H as [evs0 [lb [-> ->]]]. exists (pre ++ evs0), lb. rewrite evs_gone_app, !app_assoc. split; reflexivity.
 Qed.
 
-Lemma loop_queue_kept fuel bs : no_feed bs -> forall b flush e q, queue_kept q (loop fuel bs b flush e q).
+Lemma loop_in_order fuel bs : no_feed bs -> forall b flush e q d, in_order b q (loop fuel bs b flush e q d).
 Proof.
-  intros NF. induction fuel as [|fuel IH]; intros b flush e q; cbn [loop]; [exact I|].
+  intros NF. induction fuel as [|fuel IH]; intros b flush e q d; cbn [loop]; [exact I|].
   destruct b as [|k b0]; [reflexivity|].
   set (b := k :: b0).
   destruct (match filter (eager e) (get_matches bs e b) with [] => _ | _ :: _ => false end); [reflexivity|].
@@ -377,99 +549,152 @@ Proof.
     { apply last_opt_in in EL. destruct (filter (eager e) (get_matches bs e b)) eqn:EF.
       - exact (get_matches_in _ _ _ _ EL).
       - rewrite <- EF in EL. apply filter_In in EL. exact (get_matches_in _ _ _ _ (proj1 EL)). }
-    pose proof (run_actions_no_feed _ e q (NF m Hm)) as HQ.
-    destruct (run_actions _ e q) as [[e' q'] r]. cbn in HQ. subst q'. destruct r; cbn; [|reflexivity].
-    exists [EInvoke (fst m) b], []. reflexivity.
+    destruct (run_actions_no_feed _ e q d (NF m Hm)) as [HQ HE]. rewrite HQ, HE.
+    destruct (hraised _); cbn [in_order app].
+    + exists [EInvoke (fst m) b], []. split; [reflexivity|]. cbn. rewrite !app_nil_r. reflexivity.
+    + cbn. rewrite app_nil_r. reflexivity.
   - destruct (scan bs e b (length b)) as [[i m]|] eqn:ES.
-    + pose proof (run_actions_no_feed _ e q (NF m (scan_in _ _ _ _ _ _ ES))) as HQ.
-      destruct (run_actions _ e q) as [[e' q'] r]. cbn in HQ. subst q'. destruct r.
-      * cbn. exists [EInvoke (fst m) (firstn i b)], (skipn i b). reflexivity.
-      * apply queue_kept_lcons, IH.
-    + apply queue_kept_lcons, IH.
+    + destruct (run_actions_no_feed _ e q d (NF m (scan_in _ _ _ _ _ _ ES))) as [HQ HE]. rewrite HQ, HE.
+      destruct (hraised _).
+      * cbn [in_order app]. exists [EInvoke (fst m) (firstn i b)], (skipn i b). split; [reflexivity|].
+        cbn. rewrite app_nil_r. symmetry. apply firstn_skipn.
+      * pose proof (in_order_lapp [EInvoke (fst m) (firstn i b)] (skipn i b) q) as X.
+        cbn [evs_gone flat_map ev_gone] in X. rewrite app_nil_r, firstn_skipn in X.
+        apply X; [|intros lb lq [H|[]]; discriminate].
+        destruct (hdone _); [|apply IH]. cbn. rewrite items_keys_app, items_keys_map_IKey. reflexivity.
+    + change b with (evs_gone [EDrop k] ++ b0). apply in_order_lapp; [|intros lb lq [H|[]]; discriminate].
+      destruct d; [|apply IH]. cbn. rewrite items_keys_app, items_keys_map_IKey. reflexivity.
 Qed.
 
-Lemma process_keys_queue fuel bs : no_feed bs -> forall s,
+Lemma process_keys_in_order fuel bs : no_feed bs -> forall s,
   let '(s', evs, pop, stt) := process_keys fuel bs s in
   match stt with
-  | SRaised => exists evs0 lb lq, evs = evs0 ++ [ERaised lb lq] /\ queue s = pop ++ lq
-  | _ => queue s = pop ++ queue s'
+  | SRaised => True
+  | _ => buf s ++ items_keys (queue s) = evs_gone evs ++ buf s' ++ items_keys (queue s')
   end.
 Proof.
   intros NF. induction fuel as [|fuel IH]; intros s; cbn [process_keys].
-  - destruct (queue s) eqn:EQ; cbn; rewrite ?EQ; reflexivity.
+  - destruct (queue s) eqn:EQ; [|destruct (sdone s)]; cbn; rewrite ?EQ; reflexivity.
   - destruct (queue s) as [|it q] eqn:EQ; [cbn; rewrite ?EQ; reflexivity|].
-    pose proof (loop_queue_kept (S (length (push (buf s) it))) bs NF (push (buf s) it) (is_flush it) (cenv s) q) as HK.
-    unfold send. destruct (loop _ bs _ _ _ q) as [b e q' evs|e evs|].
-    + cbn in HK. subst q'. specialize (IH (mkst b q e)).
-      destruct (process_keys fuel bs (mkst b q e)) as [[[s' evs'] pop] stt]. cbn [queue] in IH.
-      destruct stt.
-      * rewrite IH. reflexivity.
-      * destruct IH as [evs0 [lb [lq [-> ->]]]]. exists (evs ++ evs0), lb, lq. rewrite app_assoc. split; reflexivity.
-      * rewrite IH. reflexivity.
-    + cbn in HK. destruct HK as [evs0 [lb ->]]. exists evs0, lb, q. split; reflexivity.
-    + rewrite EQ. reflexivity.
+    destruct (sdone s); [cbn; rewrite ?EQ; reflexivity|].
+    pose proof (loop_in_order (S (length (push (buf s) it))) bs NF (push (buf s) it) (is_flush it) (cenv s) q false) as HK.
+    unfold send. destruct (loop _ bs _ _ _ q false) as [b e q' d evs|e d evs|].
+    + specialize (IH (mkst b q' e d)). destruct (process_keys fuel bs (mkst b q' e d)) as [[[s' evs'] pop] stt].
+      cbn [in_order buf queue] in HK, IH. destruct stt; try exact I;
+        (change (evs_gone (EPop it :: ?x)) with (evs_gone x); rewrite evs_gone_app, <- app_assoc, <- IH, <- HK;
+         cbn [items_keys flat_map]; destruct it; cbn; rewrite <- ?app_assoc; reflexivity).
+    + exact I.
+    + cbn. rewrite EQ. reflexivity.
+Qed.
+
+(* ------------------------------------------------------------ exceptions *)
+Definition ends_raised (r : lres) : Prop :=
+  match r with
+  | LRaised _ _ evs => exists evs0 lb lq, evs = evs0 ++ [ERaised lb lq] /\ exists i ks, In (EInvoke i ks) evs0
+  | _ => True
+  end.
+
+Lemma ends_raised_lapp pre r : ends_raised r -> ends_raised (lapp pre r).
+Proof.
+  destruct r as [| e d evs |]; cbn; try tauto.
+  intros [evs0 [lb [lq [-> [i [ks H]]]]]]. exists (pre ++ evs0), lb, lq. rewrite app_assoc. split; [reflexivity|].
+  exists i, ks. apply in_or_app. right. exact H.
+Qed.
+
+Lemma loop_ends_raised fuel bs : forall b flush e q d, ends_raised (loop fuel bs b flush e q d).
+Proof.
+  induction fuel as [|fuel IH]; intros b flush e q d; cbn [loop]; [exact I|].
+  destruct b as [|k b0]; [exact I|].
+  set (b := k :: b0).
+  destruct (match filter (eager e) (get_matches bs e b) with [] => _ | _ :: _ => false end); [exact I|].
+  destruct (last_opt _) as [m|].
+  - destruct (hraised _); [|exact I]. cbn. eexists (EInvoke (fst m) b :: _), [], _. split; [reflexivity|].
+    exists (fst m), b. left; reflexivity.
+  - destruct (scan bs e b (length b)) as [[i m]|].
+    + destruct (hraised _).
+      * cbn. eexists (EInvoke (fst m) (firstn i b) :: _), _, _. split; [reflexivity|].
+        exists (fst m), (firstn i b). left; reflexivity.
+      * apply ends_raised_lapp. destruct (hdone _); [exact I|apply IH].
+    + apply ends_raised_lapp. destruct d; [exact I|apply IH].
 Qed.
 
 (* an exception leaves the processor reset *)
 Lemma process_keys_raised fuel bs : forall s s' evs pop,
   process_keys fuel bs s = (s', evs, pop, SRaised) ->
-  s' = mkst [] [] (cenv s') /\
-  exists evs0 i ks lb lq, evs = evs0 ++ [EInvoke i ks; ERaised lb lq].
+  s' = mkst [] [] (cenv s') (sdone s') /\
+  exists evs0 lb lq, evs = evs0 ++ [ERaised lb lq] /\ exists i ks, In (EInvoke i ks) evs0.
 Proof.
   induction fuel as [|fuel IH]; intros s s' evs pop; cbn [process_keys].
-  - destruct (queue s); discriminate.
-  - destruct (queue s) as [|it q]; [discriminate|].
-    destruct (send bs (buf s) (cenv s) q it) as [b e q' evs1|e evs1|] eqn:ES.
-    + destruct (process_keys fuel bs (mkst b q' e)) as [[[s1 evs'] pop1] stt] eqn:EP.
-      intros [= <- <- <- ->]. destruct (IH _ _ _ _ EP) as [H1 [evs0 [i [ks [lb [lq ->]]]]]].
-      split; [exact H1|]. exists (evs1 ++ evs0), i, ks, lb, lq. rewrite app_assoc. reflexivity.
-    + intros [= <- <- <-]. split; [reflexivity|].
-      clear IH. unfold send in ES.
-      remember (S (length (push (buf s) it))) as fu eqn:Efu. clear Efu. revert ES.
-      generalize (push (buf s) it) (is_flush it) (cenv s) q e evs1.
-      induction fu as [|fu IHf]; intros b fl e0 q0 e1 evs; cbn [loop]; [discriminate|].
-      destruct b as [|k b0]; [discriminate|].
-      set (bb := k :: b0).
-      destruct (match filter (eager e0) (get_matches bs e0 bb) with [] => _ | _ :: _ => false end); [discriminate|].
-      destruct (last_opt _) as [m|].
-      * destruct (run_actions _ e0 q0) as [[e' q'] r]. destruct r; [|discriminate].
-        intros [= <- <-]. exists [], (fst m), bb, [], q'. reflexivity.
-      * destruct (scan bs e0 bb (length bb)) as [[i m]|].
-        -- destruct (run_actions _ e0 q0) as [[e' q'] r]. destruct r.
-           ++ intros [= <- <-]. exists [], (fst m), (firstn i bb), (skipn i bb), q'. reflexivity.
-           ++ destruct (loop fu bs (skipn i bb) false e' q') as [| e2 evs2 |] eqn:EL; cbn; try discriminate.
-              intros [= <- <-]. destruct (IHf _ _ _ _ _ _ EL) as [evs0 [i' [ks [lb [lq ->]]]]].
-              exists (EInvoke (fst m) (firstn i bb) :: evs0), i', ks, lb, lq. reflexivity.
-        -- destruct (loop fu bs (tl bb) false e0 q0) as [| e2 evs2 |] eqn:EL; cbn; try discriminate.
-           intros [= <- <-]. destruct (IHf _ _ _ _ _ _ EL) as [evs0 [i' [ks [lb [lq ->]]]]].
-           exists (EDrop (hd 0 bb) :: evs0), i', ks, lb, lq. reflexivity.
+  - destruct (queue s); [|destruct (sdone s)]; discriminate.
+  - destruct (queue s) as [|it q]; [discriminate|]. destruct (sdone s); [discriminate|].
+    pose proof (loop_ends_raised (S (length (push (buf s) it))) bs (push (buf s) it) (is_flush it) (cenv s) q false) as HK.
+    unfold send. destruct (loop _ bs _ _ _ q false) as [b e q' d evs1|e d evs1|].
+    + destruct (process_keys fuel bs (mkst b q' e d)) as [[[s1 evs'] pop1] stt] eqn:EP.
+      intros [= <- <- <- ->]. destruct (IH _ _ _ _ EP) as [H1 [evs0 [lb [lq [-> [i [ks HI]]]]]]].
+      split; [exact H1|]. exists (EPop it :: evs1 ++ evs0), lb, lq. split; [cbn; rewrite app_assoc; reflexivity|].
+      exists i, ks. right. apply in_or_app. right. exact HI.
+    + intros [= <- <- <-]. split; [reflexivity|]. cbn in HK. destruct HK as [evs0 [lb [lq [-> [i [ks HI]]]]]].
+      exists (EPop it :: evs0), lb, lq. split; [reflexivity|]. exists i, ks. right. exact HI.
     + discriminate.
 Qed.
+
+(* the application being finished stops the run: nothing is popped any more *)
+Lemma process_keys_done fuel bs s : sdone s = true -> process_keys fuel bs s = (s, [], [], SDone).
+Proof. intros H. destruct fuel; cbn [process_keys]; destruct (queue s); rewrite ?H; reflexivity. Qed.
 
 (* the result does not depend on the fuel once the run finishes *)
 Lemma process_keys_fuel_mono fuel bs : forall s r fuel',
   process_keys fuel bs s = r -> snd r <> SFuel -> (fuel <= fuel')%nat -> process_keys fuel' bs s = r.
 Proof.
   induction fuel as [|fuel IH]; intros s r fuel' H NF LE.
-  - cbn [process_keys] in H. destruct fuel'; cbn [process_keys]; destruct (queue s); try exact H; subst r; cbn in NF; congruence.
+  - cbn [process_keys] in H. destruct fuel'; cbn [process_keys]; destruct (queue s); try exact H;
+      destruct (sdone s); try exact H; subst r; cbn in NF; congruence.
   - destruct fuel' as [|fuel']; [lia|]. cbn [process_keys] in *.
-    destruct (queue s) as [|it q]; [exact H|].
-    destruct (send bs (buf s) (cenv s) q it) as [b e q' evs|e evs|]; [|exact H|exact H].
-    destruct (process_keys fuel bs (mkst b q' e)) as [[[s1 evs'] pop1] stt] eqn:EP.
+    destruct (queue s) as [|it q]; [exact H|]. destruct (sdone s); [exact H|].
+    destruct (send bs (buf s) (cenv s) q false it) as [b e q' d evs|e d evs|]; [|exact H|exact H].
+    destruct (process_keys fuel bs (mkst b q' e d)) as [[[s1 evs'] pop1] stt] eqn:EP.
     assert (NF' : stt <> SFuel) by (subst r; exact NF).
     rewrite (IH _ _ fuel' EP NF' ltac:(lia)). exact H.
 Qed.
 
 (* without feeding handlers, one unit of fuel per queued item suffices *)
+Lemma loop_queue_le fuel bs : no_feed bs -> forall b flush e q d,
+  match loop fuel bs b flush e q d with
+  | LDone _ _ q' d' _ => d' = true \/ q' = q
+  | _ => True
+  end.
+Proof.
+  intros NF. induction fuel as [|fuel IH]; intros b flush e q d; cbn [loop]; [exact I|].
+  destruct b as [|k b0]; [right; reflexivity|].
+  set (b := k :: b0).
+  destruct (match filter (eager e) (get_matches bs e b) with [] => _ | _ :: _ => false end); [right; reflexivity|].
+  destruct (last_opt _) as [m|] eqn:EL.
+  - assert (Hm : In m bs).
+    { apply last_opt_in in EL. destruct (filter (eager e) (get_matches bs e b)) eqn:EF.
+      - exact (get_matches_in _ _ _ _ EL).
+      - rewrite <- EF in EL. apply filter_In in EL. exact (get_matches_in _ _ _ _ (proj1 EL)). }
+    destruct (run_actions_no_feed _ e q d (NF m Hm)) as [HQ HE].
+    destruct (hraised _); [exact I|]. right. exact HQ.
+  - destruct (scan bs e b (length b)) as [[i m]|] eqn:ES.
+    + destruct (run_actions_no_feed _ e q d (NF m (scan_in _ _ _ _ _ _ ES))) as [HQ HE]. rewrite HQ.
+      destruct (hraised _); [exact I|]. destruct (hdone _); [cbn; left; reflexivity|].
+      specialize (IH (skipn i b) false (he (run_actions (bacts (snd m)) e q d)) q false).
+      destruct (loop fuel bs (skipn i b) false _ q false); cbn; auto.
+    + destruct d; [cbn; left; reflexivity|].
+      specialize (IH (tl b) false e q false). destruct (loop fuel bs (tl b) false e q false); cbn; auto.
+Qed.
+
 Lemma process_keys_fuel_nofeed fuel bs : no_feed bs -> forall s,
   (length (queue s) <= fuel)%nat -> snd (process_keys fuel bs s) <> SFuel.
 Proof.
   intros NF. induction fuel as [|fuel IH]; intros s HL; cbn [process_keys].
   - destruct (queue s); [discriminate|cbn in HL; lia].
-  - destruct (queue s) as [|it q] eqn:EQ; [discriminate|].
-    pose proof (loop_queue_kept (S (length (push (buf s) it))) bs NF (push (buf s) it) (is_flush it) (cenv s) q) as HK.
-    pose proof (send_fuel bs (buf s) (cenv s) q it) as HF.
-    unfold send in *. destruct (loop _ bs _ _ _ q) as [b e q' evs|e evs|]; [|discriminate|congruence].
-    cbn in HK. subst q'. specialize (IH (mkst b q e)). cbn [queue] in IH.
-    destruct (process_keys fuel bs (mkst b q e)) as [[[s1 evs'] pop1] stt]. cbn in *. apply IH. lia.
+  - destruct (queue s) as [|it q] eqn:EQ; [discriminate|]. destruct (sdone s); [discriminate|].
+    pose proof (loop_queue_le (S (length (push (buf s) it))) bs NF (push (buf s) it) (is_flush it) (cenv s) q false) as HK.
+    pose proof (send_fuel bs (buf s) (cenv s) q false it) as HF.
+    unfold send in *. destruct (loop _ bs _ _ _ q false) as [b e q' d evs|e d evs|]; [|discriminate|congruence].
+    destruct HK as [->| ->].
+    + rewrite process_keys_done by reflexivity. discriminate.
+    + specialize (IH (mkst b q e d)). cbn [queue] in IH.
+      destruct (process_keys fuel bs (mkst b q e d)) as [[[s1 evs'] pop1] stt]. cbn in *. apply IH. lia.
 Qed.
